@@ -473,6 +473,9 @@ pub fn generate(profile: &str, seed: u64) -> Scenario {
     if matches!(profile, "C03" | "C05" | "C06") && Rng::new(seed ^ 0x6A7D).chance(3, 100) {
         return gen_guard_travel(profile, seed);
     }
+    if matches!(profile, "C01" | "C07" | "C08") && Rng::new(seed ^ 0xACC0).chance(2, 100) {
+        return gen_guard_accessor(profile, seed);
+    }
     match profile {
         "C06" => gen_c06(seed),
         "C07" => gen_c07(seed),
@@ -579,6 +582,44 @@ pub fn gen_guard_travel(profile: &str, seed: u64) -> Scenario {
         threads.push(vec![Step::Acquire(Acq { target: t, rebuild: false, api: Api::TryLock, lent_key: false, body: vec![], release: Release::Drop, mutate: false })]);
     }
     let mut cfg = g.cfg(40);
+    cfg.faults.try_refuse_pct = 0;
+    Scenario { world: w, program: Program { threads }, cfg, profile: profile.to_string() }
+}
+
+/// Member guards must not hand out references to the locks they hold: with them the members
+/// of an owned collection (which locks in listing order) are reachable by shared reference.
+/// One thread holds an owned collection over plain locks listed in descending address order,
+/// asks every member guard for its lock, and later locks a sorting collection built over
+/// whatever it was given (nothing, normally: the target then does not exist); other threads
+/// lock the owned collection.
+pub fn gen_guard_accessor(profile: &str, seed: u64) -> Scenario {
+    let mut rng = Rng::new(seed ^ 0xACCE);
+    let p = Params::base();
+    let mut g = Gen::new(seed, &p);
+    let n = rng.range(2, 3);
+    let rw = rng.chance(1, 2);
+    let leaves: Vec<LeafKind> = (0..n).map(|_| if rw { LeafKind::R } else { LeafKind::M }).collect();
+    // slots ascend in address; the unit lists its members in another order
+    let slots: Vec<Slot> = (0..n).map(Slot::Leaf).chain([Slot::Unit(0)]).collect();
+    let mut listing: Vec<usize> = (0..n).rev().collect();
+    if rng.chance(1, 3) {
+        rng.shuffle(&mut listing);
+    }
+    let cont = g.pick_cont(n);
+    let units = vec![UnitSpec { cont, leaves: listing, by_ref: true }];
+    let outer_kind = *rng.pick(&[CollKind::Boxed, CollKind::Retry, CollKind::Ref]);
+    let targets = vec![TSpec::Unit(0), TSpec::Exposed { unit: 0 }, TSpec::Coll { kind: outer_kind, cont: ContKind::Tuple, members: vec![TSpec::Unit(0)], poison: false }];
+    let w = WorldSpec { leaves, units, slots, targets, datas: vec![], gates: 0, tags: 0 };
+    let hold = |t: usize, api: Api, body: Vec<BodyOp>, rebuild: bool| Step::Acquire(Acq { target: t, rebuild, api, lent_key: false, body, release: Release::Drop, mutate: false });
+    let keep: Vec<BodyOp> = (0..n).map(BodyOp::KeepLockRef).collect();
+    let first = *rng.pick(&[0usize, 2]);
+    let api0 = if rw && rng.chance(1, 3) { Api::Read } else { Api::Lock };
+    let t0 = vec![hold(first, api0, keep, false), hold(1, Api::Lock, vec![BodyOp::Yield, BodyOp::Write(0)], true), hold(1, Api::Lock, vec![], true)];
+    let mut threads = vec![t0];
+    for _ in 0..rng.range(1, 2) {
+        threads.push(vec![Step::Yield, hold(*rng.pick(&[0usize, 2]), Api::Lock, vec![BodyOp::Yield], false), hold(0, Api::Lock, vec![], false)]);
+    }
+    let mut cfg = g.cfg(60);
     cfg.faults.try_refuse_pct = 0;
     Scenario { world: w, program: Program { threads }, cfg, profile: profile.to_string() }
 }
